@@ -179,6 +179,15 @@ def compare_final(ctx, spec, env, label, witness):
         ctx["vio"]("recorded glob matches differ from a from-scratch build",
                    f"{label}: {globs_i} vs {globs_s}", witness)
     diff = {p for p in set(outs_i) | set(outs_s) if outs_i.get(p) != outs_s.get(p)}
+    # A former output whose (detached) node an active step still has as an input stays on disk and
+    # in the graph by design (C07: "unless an active step still uses it as an input"); a build from
+    # scratch has no such file.  C01 speaks about declared outputs and active nodes only.
+    held = held_by_active_step() if any(p not in outs_s for p in diff) else set()
+    kept = {p for p in diff if p not in outs_s and p in held}
+    if kept:
+        ctx["counters"]["former_outputs_held_by_an_active_consumer"] = \
+            ctx["counters"].get("former_outputs_held_by_an_active_consumer", 0) + len(kept)
+        diff -= kept
     if diff:
         only_i = sorted(p for p in diff if p not in outs_s)
         only_s = sorted(p for p in diff if p not in outs_i)
@@ -198,6 +207,20 @@ def compare_final(ctx, spec, env, label, witness):
         ctx["vio"](mech, f"{label}: only incremental={only_i} only scratch={only_s} "
                    f"content differs={changed}", witness)
     return "compared", b_s
+
+
+def held_by_active_step():
+    """Paths of detached file nodes of the current directory's workflow that are an input of an
+    attached step."""
+    import sqlite3
+    con = sqlite3.connect("file:.stepup/graph.db?mode=ro", uri=True)
+    try:
+        return {r[0] for r in con.execute(
+            "SELECT f.label FROM node AS f JOIN dependency ON dependency.source = f.i "
+            "JOIN node AS s ON s.i = dependency.sink "
+            "WHERE f.kind = 'file' AND f.detached AND s.kind = 'step' AND NOT s.detached")}
+    finally:
+        con.close()
 
 
 OPT_MEMORY_MECH = ("optional step that is no longer needed keeps what an earlier run of it created "
@@ -268,6 +291,12 @@ def only_optional_products_differ(gi, gs):
         produced_by = {r[1] for r in node["rels"] if r[0] in ("source", "creator")}
         if produced_by & suspect:
             continue
+        if b is None and h.startswith("file:") and any(k.startswith("st:") for k in produced_by):
+            # a member of a static tree gets its node when a step first uses it: here only the
+            # suspect steps do
+            sinks = {r[1] for r in node["rels"] if r[0] == "sink"}
+            if sinks and sinks <= suspect:
+                continue
         if a is None or b is None or a["props"] != b["props"]:
             return set()
         if not all(r[1] in suspect or r[1] in diff for r in set(a["rels"]) ^ set(b["rels"])):
@@ -357,6 +386,29 @@ def scenario_subplan_readd():
     p3 = copy.deepcopy(spec)
     return spec, [{"edits": [["drop_step", "drop O"]], "spec": p2},
                   {"edits": [["readd_step", "re-add O unchanged"]], "spec": p3}]
+
+
+def scenario_failed_plan_then_edit():
+    """The root plan fails before it runs its sub-plan again (everything the sub-plan declared stays
+    detached, nothing is cleaned up after the failed build); then the plan is repaired and a static
+    file that only the sub-plan declares is edited while StepUp is not running."""
+    spec = {
+        "sources": {"src/a.txt": "a\n", "src/x.txt": "x\n"},
+        "env": {},
+        "steps": {
+            "A": {"kind": "do", "salt": "", "inp": ["src/a.txt"], "out": ["out/a.txt"]},
+            "S": {"kind": "do", "salt": "", "inp": ["src/x.txt"], "out": ["out/s.txt"]},
+        },
+        "plans": {".": [["static", ["src/a.txt", "sub/plan.py"]], ["step", "A"], ["plan", "sub"]],
+                  "sub": [["static", ["src/x.txt"]], ["step", "S"]]},
+    }
+    p2 = copy.deepcopy(spec)
+    p2["plans"]["."] = [["static", ["src/a.txt", "sub/plan.py"]], ["step", "A"],
+                        ["raw", {"a": "fail", "rc": 3}], ["plan", "sub"]]
+    p3 = copy.deepcopy(spec)
+    p3["sources"]["src/x.txt"] = "x edited while StepUp was down\n"
+    return spec, [{"edits": [["break_plan", "root plan fails before the sub-plan"]], "spec": p2},
+                  {"edits": [["repair_plan", "root plan as before"], ["change_source", "src/x.txt"]], "spec": p3}]
 
 
 def scenario_optional_amend_dropped():
@@ -450,6 +502,7 @@ SCENARIO_FORCE = {
 
 SEED_SCENARIOS = {
     "deferred_subplan_moved_output": scenario_deferred_subplan_moved_output,
+    "failed_plan_then_edit": scenario_failed_plan_then_edit,
     "subplan_readd": scenario_subplan_readd,
     "optional_amend_dropped": scenario_optional_amend_dropped,
     "recycle_chain": scenario_recycle_chain,
